@@ -4,7 +4,7 @@ import json
 
 CHECKS = {
  "C02": dict(cat="exploration", tech="property-based testing (proptest): random source programs vs reference evaluator (differential / translation validation)",
-   text="Random builder programs (all statement kinds, 5 field configurations, aliasing by connect) are compiled and run; every node's runner value is compared with an independent field-arithmetic evaluation of the un-simplified program; satisfying inputs must run Ok, violating inputs must fail (or be unprovable). Exploration: holds on everything generated, no absence claim.",
+   text="Random builder programs (all statement kinds, 5 field configurations, aliasing by connect) are compiled and run; every node's runner value is compared with an independent field-arithmetic evaluation of the un-simplified program; satisfying inputs must run Ok, violating inputs must fail (or be unprovable). Exploration: holds on everything generated, no absence claim. Direct permutation programs (1-12 Poseidon1/2 sponge and Merkle rows, 6 configurations) are run and every exposed output and committed row input is compared with a model over the native permutation.",
    note="Trusted: p3-field arithmetic; the harness' reference interpreter (e1.rs). Division-by-zero cases only judged for absence of panics.", ref="DESIGN.md §3 C02", engine="E1"),
 }
 
@@ -13,10 +13,10 @@ CHECKS.update({
    text="For random programs, assignments derived from the honest one by pinning 1-3 slots and re-deriving the rest over Circuit::ops are judged by an independent evaluator of the op relations; whenever all ops are satisfied, every source relation (definitions, connects, asserts, bit decompositions) must hold. ~130k non-vacuous antecedents per quick run. Exploration only.",
    note="Trusted: the harness' op semantics (opsem.rs, written from the Op documentation) and source semantics (e1.rs). Fused products nobody else refers to are treated as don't-care slots. Ext (de)composition statements are excluded here (value precondition; see C12).", ref="DESIGN.md §3 C03", engine="E1"),
  "C09": dict(cat="exploration", tech="property-based testing (proptest): invariant over compiled circuits recomputed from committed preprocessed traces",
-   text="For random programs x packings x 7 field configurations the WitnessChecks interactions of all tables are decoded from the committed preprocessed traces and checked: per-slot multiplicities sum to zero, one creator per read slot, no relation-relevant ALU operand with multiplicity 0 on a slot other rows refer to. Known shapes (two Const/Public creators, Horner positional contract, duplicate NPO outputs) are excluded by construction and replayed as KNOWN-FINDING. Additionally, library-built circuits with Merkle-mode permutation tables (half of them steered to an exactly full table) are proven and verified: a lookup rejection of the honest traces means the bus does not balance.",
+   text="For random programs x packings x 7 field configurations the WitnessChecks interactions of all tables are decoded from the committed preprocessed traces and checked: per-slot multiplicities sum to zero, one creator per read slot, no relation-relevant ALU operand with multiplicity 0 on a slot other rows refer to. Known shapes (two Const/Public creators, Horner positional contract, duplicate NPO outputs) are excluded by construction and replayed as KNOWN-FINDING. Additionally, library-built circuits with Merkle-mode permutation tables (half of them steered to an exactly full table) are proven and verified: a lookup rejection of the honest traces means the bus does not balance. Direct permutation programs (exposed index sums, exactly full tables) are proven as well.",
    note="Trusted: the documented table layouts as decoded in pv.rs; bus semantics = per-slot signed multiplicity sums (values are consistent on honest traces, which C10 checks dynamically).", ref="DESIGN.md §3 C09", engine="E1"),
  "C10": dict(cat="exploration", tech="property-based testing (proptest): random satisfying programs x prover configurations, prove + verify with the real prover",
-   text="Random satisfying programs (7 field configurations, lanes 1-4, Horner packing 2-4, min heights, recompose tables) are run, proven with BatchStarkProver and verified; run Ok must imply prove Ok and verify Ok. 6000 proofs per quick run. A second sub-check proves honest MMCS opening circuits (Merkle-mode permutation rows), half of them with the permutation table steered to be exactly full (no padding row).",
+   text="Random satisfying programs (7 field configurations, lanes 1-4, Horner packing 2-4, min heights, recompose tables) are run, proven with BatchStarkProver and verified; run Ok must imply prove Ok and verify Ok. 6000 proofs per quick run. A second sub-check proves honest MMCS opening circuits (Merkle-mode permutation rows), half of them with the permutation table steered to be exactly full (no padding row). Direct permutation programs are proven as well.",
    note="Trusted: the repo's own StarkConfig presets; p3-batch-stark verifier. Documented UnclaimedPrivateInput cases are discarded (counted).", ref="DESIGN.md §3 C10", engine="E1+E2"),
  "C18": dict(cat="exploration", tech="property-based testing (proptest) over runtime nondeterminism: repeated compilation in-process and in child processes, canonical digest comparison",
    text="Each generated program is compiled 6 times in one process (fresh hash seeds per map) and in 3 child processes with different rayon thread counts; a canonical digest of ops, numbering, table degrees/order, preprocessed columns, preprocessed commitment and traces must be identical. A third sub-check derives AIRs, degrees and preprocessed traces of circuits with two Poseidon2 tables (width 16 and 32, registered through poseidon2_air_builders_for_configs) 8 times and requires identical table order and traces.",
@@ -25,7 +25,7 @@ CHECKS.update({
 
 CHECKS.update({
  "C04": dict(cat="fault_enumeration", tech="property-based fault injection (proptest): forged execution traces proven with the real prover, native verifier verdict vs independent validity oracle",
-   text="1-2 generated fault operators (table cell, slot everywhere, slot+propagation, constant, recompose coefficient, input change as control) are applied to honest execution traces of random programs in 7 field configurations; the forged traces are proven in the release profile (no prover self-check) and verified natively. Accepted implies valid (one value per slot, exact constants, every ALU relation, recompose rows). ~5000 forged proofs per quick run; rejected forgeries are the negative control.",
+   text="1-2 generated fault operators (table cell, slot everywhere, slot+propagation, constant, recompose coefficient, input change as control) are applied to honest execution traces of random programs in 7 field configurations; the forged traces are proven in the release profile (no prover self-check) and verified natively. Accepted implies valid (one value per slot, exact constants, every ALU relation, recompose rows). ~5000 forged proofs per quick run; rejected forgeries are the negative control. Two further sub-checks: direct permutation programs with one fault (table cell, public value, chain-start accumulator, dishonest re-execution); MMCS opening circuits with one opened value changed while the Merkle-mode rows keep the honest path (forged opening at the proof level: listed finding).",
    note="Trusted: forge::trace_validity (written from the Op documentation); STARK soundness error negligible (100 FRI queries). Cells of packed Horner rows that never reach the committed matrix are normalised. Known classes (constant values in the main trace, standard recompose coefficients unbound) are excluded by construction and replayed.", ref="DESIGN.md §3 C04", engine="E1+E2"),
  "C05": dict(cat="exploration", tech="model-based property testing (proptest): random challenger op histories, native DuplexChallenger as the model",
    text="Random histories (observe base/ext/slices, sample base/ext/bits, PoW valid/invalid, clear; 0-60 ops, thorough 300) over 14 challenger configurations x recompose table on/off are run against the native challenger and the in-circuit challenger; every sampled target must equal the native sample and run() must succeed iff every PoW check is natively valid. All sequences of length <= 3 over a 10-symbol alphabet are enumerated.",
@@ -58,7 +58,7 @@ CHECKS.update({
 
 CHECKS.update({
  "C19": dict(cat="exploration", tech="differential property testing (proptest) across build profiles: the same (program, input plan) cases run in the release binary and in the debug-assertion binary",
-   text="Random programs rich in hint / recompose-NPO consumers and connect-shared slots x input plans (provide once, skip, too short, too long, set twice equal/conflicting) are executed by the release-profile runner and by the debug-assertion-profile runner (child process). Verdict classes must agree, success requires consistently provided inputs (or inputs the circuit itself determines) and the reference values, no panic/abort in either profile. 150k cases per quick run. One more plan supplies complete inputs with one value changed (possibly conflicting with what the circuit determines): on success every input slot must hold the supplied value.",
+   text="Random programs rich in hint / recompose-NPO consumers and connect-shared slots x input plans (provide once, skip, too short, too long, set twice equal/conflicting) are executed by the release-profile runner and by the debug-assertion-profile runner (child process). Verdict classes must agree, success requires consistently provided inputs (or inputs the circuit itself determines) and the reference values, no panic/abort in either profile. 150k cases per quick run. One more plan supplies complete inputs with one value changed (possibly conflicting with what the circuit determines): on success every input slot must hold the supplied value. Non-primitive private data plans on permutation programs: attached to the right row, to a sponge row, twice, by unknown tag or out-of-range op id.",
    note="UB is observed through behaviour, not proven absent. Builder-stage failures (e.g. debug-only assertions in connect) are outside the runner property and discarded (counted).", ref="DESIGN.md §3 C19", engine="E1"),
 })
 
